@@ -25,7 +25,7 @@ pub const INFO: PropInfo = PropInfo {
         "the date is covered for every day of [1970, 9999] in the thorough tier and by biased sampling in the quick tier",
         "the reference date formatter (civil-from-days) is cross-checked against Python's email.utils once per batch (tools/selftest.py)",
     ],
-    expected_probes: &["c20.leap_day", "c20.century_boundary", "c20.year_9999", "c20.epoch", "c20.len_power_of_ten", "c20.hex_power_of_sixteen", "c20.len_zero", "c20.hex_multi_line_message"],
+    expected_probes: &["c20.leap_day", "c20.century_boundary", "c20.year_9999", "c20.epoch", "c20.len_power_of_ten", "c20.hex_power_of_sixteen", "c20.len_zero", "c20.hex_multi_line_message", "c20.file_served_by_a_mounted_directory"],
 };
 
 #[derive(Clone, Debug, Serialize, Deserialize)]
@@ -34,7 +34,11 @@ pub enum Kind {
     Hex(usize),
     /// an SSE message of `lines` lines of `n` bytes each: the chunk is lines * (6 + n + 1) + 1 bytes
     HexLines(usize, usize),
+    /// a file of this many bytes served by a mounted directory (one of FILE_SIZES): responses assembled from parts that
+    /// were prepared at start-up must still carry the date of the response
+    File(usize),
 }
+const FILE_SIZES: [usize; 9] = [0, 1, 9, 10, 99, 100, 4095, 4096, 65_536];
 #[derive(Clone, Debug, Serialize, Deserialize)]
 pub struct Probe {
     pub at: u64,
@@ -78,7 +82,8 @@ fn gen_instant() -> u64 {
 
 fn gen_kind(thorough: bool) -> Kind {
     let big = if thorough { 1 } else { 0 };
-    match t::weighted(&[4, 3, 2, big, 3, 2, big, 3]) {
+    match t::weighted(&[4, 3, 2, big, 3, 2, big, 3, 2]) {
+        8 => Kind::File(t::pick(&FILE_SIZES)),
         7 => {
             // several lines: the framed size is what must be rendered, not the size of the text
             let lines = t::range(2, 6) as usize;
@@ -162,7 +167,18 @@ struct N {
 fn execute(sc: &Scenario, out: &mut Outcome) {
     out.scenario = serde_json::to_value(sc).unwrap_or(serde_json::Value::Null);
     out.scenario_hash = rt::fnv64(serde_json::to_string(sc).unwrap_or_default().as_bytes());
+    // a small directory, mounted while the wall clock reads an instant none of the probes uses
+    let base = std::path::PathBuf::from(format!("/verif/target/simfs/{}", std::process::id()));
+    let _ = std::fs::remove_dir_all(&base);
+    let dir = base.join("c20");
+    let _ = std::fs::create_dir_all(&dir);
+    for n in FILE_SIZES {
+        let _ = std::fs::write(dir.join(format!("f{n}.txt")), "z".repeat(n));
+    }
+    simcore::with(|w| w.wall_frozen = Some(1_000_000_007));
+    let dir_lit: &'static str = Box::leak(dir.to_string_lossy().to_string().into_boxed_str());
     let app = Ohkami::new((
+        "/static".Dir(dir_lit),
         "/len".GET(|Query(q): Query<N>| async move { Response::OK().with_text("x".repeat(q.n)) }),
         "/sse".GET(|Query(q): Query<N>| async move {
             let text = vec!["y".repeat(q.n); q.l.unwrap_or(1)].join("\n");
@@ -186,6 +202,7 @@ fn execute(sc: &Scenario, out: &mut Outcome) {
                 Kind::Len(n) => format!("/len?n={n}"),
                 Kind::Hex(n) => format!("/sse?n={n}"),
                 Kind::HexLines(n, l) => format!("/sse?n={n}&l={l}"),
+                Kind::File(n) => format!("/static/f{n}.txt"),
             };
             c.send(format!("GET {target} HTTP/1.1\r\nHost: s\r\n\r\n").as_bytes(), 0);
             let r = c.recv(false, DEFAULT_TIMEOUT).await;
@@ -199,6 +216,7 @@ fn execute(sc: &Scenario, out: &mut Outcome) {
         let _ = c.drain_until_close(DEFAULT_TIMEOUT).await;
     });
     let end = simcore::run();
+    let _ = std::fs::remove_dir_all(&base);
     let panics = rt::panicked_tasks();
     if let Some((_, _, file, _, msg)) = panics.first() {
         out.violate("no-panic", rt::panic_site(file, msg), format!("a server task panicked at {file}: {msg}"));
@@ -246,6 +264,14 @@ fn execute(sc: &Scenario, out: &mut Outcome) {
             out.probe("c20.epoch");
         }
         match p.kind {
+            Kind::File(n) => {
+                out.probe("c20.file_served_by_a_mounted_directory");
+                let cl = resp.header("content-length").unwrap_or("");
+                if cl != n.to_string() || resp.body.len() != n {
+                    out.violate("decimal", "content-length-differs", format!("a file of {n} bytes is announced as Content-Length {:?} ({} bytes arrived)", cl, resp.body.len()));
+                    return;
+                }
+            }
             Kind::Len(n) => {
                 let cl = resp.header("content-length").unwrap_or("");
                 if cl != n.to_string() || resp.body.len() != n {
